@@ -872,5 +872,14 @@ func main() {
 		p = os.Args[0]
 	}
 	selfPath = p
-	vlib.Main("C13", "model_checking", run)
+	vlib.Main("C13", "model_checking", func(c *vlib.Ctx) {
+		// the interleaving clause (concurrent requests, cancels, writes feeding subscriptions) is decided by the engine-S part
+		if c.ReplayPart(`"c13s/`, "/verif/build/c13s") {
+			return
+		}
+		if !c.IsShard() {
+			defer c.RunPart("/verif/build/c13s")
+		}
+		run(c)
+	})
 }
